@@ -4,6 +4,15 @@ use vstd::string::*;
 use vstd::utf8::*;
 verus! {
 
+// ===== prelude: ../_common/format.rs =====
+/// R4: `format!(..)` is replaced by this stand-in: an unconstrained String (the text is only logged,
+/// or its content is irrelevant for the contracts that mention it).
+#[verifier::external_body]
+pub fn verif_format() -> (r: String) {
+    String::new()
+}
+
+
 // ===== prelude: prelude.rs =====
 // TRUSTED stand-ins (assumption ledger A4): std::io::Write + byteorder::WriteBytesExt seen as one
 // trait over an abstract byte sink `out()`.  Nothing here is proved; every item is listed in the
@@ -52,6 +61,58 @@ pub mod trusted_axioms {
 }
 
 broadcast use trusted_axioms::axiom_str_len_fits;
+
+/// stand-in for std::io::Read + byteorder::ReadBytesExt over an abstract byte source `rest()`.
+/// `eof_only()`: the source fails only when it runs out of data (no transient I/O errors).
+pub trait Read {
+    spec fn rest(&self) -> Seq<u8>;
+    spec fn eof_only(&self) -> bool;
+
+    /// byteorder::ReadBytesExt::read_u8 == read_exact into a 1-byte buffer
+    fn read_u8(&mut self) -> (r: std::io::Result<u8>)
+        ensures
+            final(self).eof_only() == old(self).eof_only(),
+            match r {
+                Ok(b) => old(self).rest().len() >= 1 && b == old(self).rest()[0]
+                    && final(self).rest() == old(self).rest().subrange(1, old(self).rest().len() as int),
+                Err(_) => old(self).eof_only() ==> old(self).rest().len() == 0,
+            };
+
+    /// std::io::Read::read_exact: fills buf completely or fails
+    fn read_exact(&mut self, buf: &mut [u8]) -> (r: std::io::Result<()>)
+        ensures
+            final(self).eof_only() == old(self).eof_only(),
+            final(buf)@.len() == old(buf)@.len(),
+            match r {
+                Ok(_) => old(self).rest().len() >= old(buf)@.len() && final(buf)@ == old(self).rest().subrange(0, old(buf)@.len() as int)
+                    && final(self).rest() == old(self).rest().subrange(old(buf)@.len() as int, old(self).rest().len() as int),
+                Err(_) => old(self).eof_only() ==> old(self).rest().len() < old(buf)@.len(),
+            };
+}
+
+// ---- A4 / A6: std string functions without vstd specification --------------------------------
+#[verifier::external_type_specification]
+#[verifier::external_body]
+pub struct ExUtf8Error(std::str::Utf8Error);
+
+/// std::str::from_utf8 succeeds exactly on valid UTF-8 and then yields those very bytes
+pub assume_specification [std::str::from_utf8] (b: &[u8]) -> (r: std::result::Result<&str, std::str::Utf8Error>)
+    ensures
+        r.is_ok() == valid_utf8(b@),
+        r.is_ok() ==> r.unwrap().spec_bytes() == b@;
+
+/// String::insert_str(0, s) on an empty string makes it equal to s (only this use occurs)
+pub assume_specification [std::string::String::insert_str] (s: &mut std::string::String, idx: usize, t: &str)
+    requires
+        idx == 0,
+        old(s)@.len() == 0,
+    ensures
+        final(s)@ == t@;
+
+/// `String == str` compares the character sequences
+pub assume_specification [<String as PartialEq<str>>::eq] (a: &String, b: &str) -> (r: bool)
+    ensures
+        r == (a@ == b@);
 
 
 // ===== spec: spec.rs =====
@@ -141,6 +202,141 @@ pub open spec fn opt_str_encodable(o: Option<String>) -> bool {
         None => true,
         Some(s) => str_encodable(encode_utf8(s@)),
     }
+}
+
+// ---------------------------------------------------------------------------------------------
+// Decoder side: what one "type and value" token at the head of a byte sequence means.
+// ---------------------------------------------------------------------------------------------
+
+/// left fold: acc, then each payload byte shifted in from the right (big endian)
+pub open spec fn be_value(acc: u64, p: Seq<u8>) -> u64
+    decreases p.len(),
+{
+    if p.len() == 0 {
+        acc
+    } else {
+        be_value((acc << 8) | (p[0] as u64), p.subrange(1, p.len() as int))
+    }
+}
+
+pub enum Tv {
+    /// the sequence ends before the token is complete
+    Eof,
+    /// string payload is not valid UTF-8
+    BadUtf8,
+    /// head byte of no known class (0x0_, 0x2_, 0xE_, 0xF_): the reader keeps stale state, nothing is promised
+    Unknown,
+    /// 0x1_ : a one-byte tag (boolean / "none" marker)
+    Tag(u8),
+    /// number of width class k with value v; n bytes consumed
+    Num(int, u64, int),
+    /// string token of type t (0xC0 | 0xD0) with these bytes; n bytes consumed
+    Str(u8, Seq<u8>, int),
+}
+
+pub open spec fn dec_tv(s: Seq<u8>) -> Tv {
+    if s.len() == 0 {
+        Tv::Eof
+    } else {
+        let h = s[0];
+        let low = (h % 16) as u8;
+        if 0x10 <= h && h <= 0x1F {
+            Tv::Tag(h)
+        } else if 0x30 <= h && h <= 0xBF {
+            let k = (h as int - 0x30) / 0x10;
+            if s.len() < 1 + k {
+                Tv::Eof
+            } else {
+                Tv::Num(k, be_value(low as u64, s.subrange(1, 1 + k)), 1 + k)
+            }
+        } else if 0xC0 <= h && h <= 0xCF {
+            let n = low as int;
+            if s.len() < 1 + n {
+                Tv::Eof
+            } else if !valid_utf8(s.subrange(1, 1 + n)) {
+                Tv::BadUtf8
+            } else {
+                Tv::Str(0xC0u8, s.subrange(1, 1 + n), 1 + n)
+            }
+        } else if 0xD0 <= h && h <= 0xDF {
+            if s.len() < 2 {
+                Tv::Eof
+            } else {
+                let n = ((low as int) * 256) + s[1] as int;
+                if s.len() < 2 + n {
+                    Tv::Eof
+                } else if !valid_utf8(s.subrange(2, 2 + n)) {
+                    Tv::BadUtf8
+                } else {
+                    Tv::Str(0xD0u8, s.subrange(2, 2 + n), 2 + n)
+                }
+            }
+        } else {
+            Tv::Unknown
+        }
+    }
+}
+
+pub open spec fn skip(s: Seq<u8>, n: int) -> Seq<u8> {
+    s.subrange(n, s.len() as int)
+}
+
+pub open spec fn is_uint_type(t: u8) -> bool {
+    t == 0x30 || t == 0x40 || t == 0x50 || t == 0x60 || t == 0x70 || t == 0x80 || t == 0x90 || t == 0xA0 || t == 0xB0
+}
+
+/// postcondition shape of read_type_and_size for a reader that was ok
+pub open spec fn tv_post(rest0: Seq<u8>, rel: bool, ok1: bool, rest1: Seq<u8>, type1: u8, num1: u64, str1: Seq<u8>) -> bool {
+    match dec_tv(rest0) {
+        Tv::Eof => !ok1,
+        Tv::BadUtf8 => !ok1,
+        Tv::Unknown => true,
+        Tv::Tag(b) => (rel ==> ok1) && (ok1 ==> type1 == b && rest1 == skip(rest0, 1)),
+        Tv::Num(k, v, n) => (rel ==> ok1) && (ok1 ==> type1 == uint_type(k) && num1 == v && rest1 == skip(rest0, n)),
+        Tv::Str(t, b, n) => (rel ==> ok1) && (ok1 ==> type1 == t && str1 == b && rest1 == skip(rest0, n)),
+    }
+}
+
+/// the token is a number: Some((value, bytes consumed)); a token of another kind / cut off / malformed: None
+pub open spec fn num_token(rest0: Seq<u8>) -> Option<(u64, int)> {
+    match dec_tv(rest0) {
+        Tv::Num(k, v, n) => Some((v, n)),
+        _ => None,
+    }
+}
+
+pub open spec fn str_token(rest0: Seq<u8>) -> Option<(Seq<u8>, int)> {
+    match dec_tv(rest0) {
+        Tv::Str(t, b, n) => Some((b, n)),
+        _ => None,
+    }
+}
+
+pub open spec fn unknown_head(rest0: Seq<u8>) -> bool {
+    dec_tv(rest0) == Tv::Unknown
+}
+
+/// shape shared by all read_* postconditions (reader ok before the call):
+/// tok = what the spec decoder sees, got = what the call returned matches it
+pub open spec fn rd_post(present: bool, unknown: bool, rel: bool, ok1: bool, rest0: Seq<u8>, n: int, rest1: Seq<u8>, value_ok: bool) -> bool {
+    if unknown {
+        true
+    } else if present {
+        (rel ==> ok1) && (ok1 ==> value_ok && rest1 == skip(rest0, n))
+    } else {
+        !ok1
+    }
+}
+
+/// UTF-8 encoding is injective (vstd: decode_utf8(encode_utf8(c)) == c)
+pub proof fn lemma_utf8_injective(a: Seq<char>, b: Seq<char>)
+    requires
+        encode_utf8(a) == encode_utf8(b),
+    ensures
+        a == b,
+{
+    encode_utf8_decode_utf8(a);
+    encode_utf8_decode_utf8(b);
 }
 
 pub const FSM_PROTOCOL_TYPE_PROTOCOL_VERSION: &'static str = "DwP1.1";
@@ -409,6 +605,465 @@ fn get_writer(&self) -> &W {
 
 }
 
+pub struct TypeAndValue {
+    pub type_id: u8,
+    pub number: u64,
+    pub string: String,
+}
+
+pub struct DefaultProtocolReader<R>
+where
+    R: Read,
+{
+    pub reader: R,
+    pub ok: bool,
+    pub type_and_value: TypeAndValue,
+    pub buffer: [u8; 4096],
+}
+
+pub trait ProtocolReader<R: Read> {
+    // ghost view members added by rule R15 (no executable text)
+    spec fn prest(&self) -> Seq<u8>;
+    spec fn pok(&self) -> bool;
+    spec fn preliable(&self) -> bool;
+
+fn verify_version(&mut self)
+    ensures
+        !old(self).pok() ==> !final(self).pok() && final(self).prest() == old(self).prest(),
+        final(self).preliable() == old(self).preliable(),
+        old(self).pok() ==> rd_post(str_token(old(self).prest()).is_some() && str_token(old(self).prest()).unwrap().0 == FSM_PROTOCOL_TYPE_PROTOCOL_VERSION.spec_bytes(), unknown_head(old(self).prest()), old(self).preliable(), final(self).pok(), old(self).prest(), str_token(old(self).prest()).unwrap().1, final(self).prest(), true),
+;
+
+fn close(&mut self)
+    ensures
+        final(self).prest() == old(self).prest() && final(self).pok() == old(self).pok() && final(self).preliable() == old(self).preliable(),
+;
+
+fn read_boolean(&mut self) -> (r: bool) 
+    ensures
+        !old(self).pok() ==> !final(self).pok() && !r && final(self).prest() == old(self).prest(),
+        !final(self).pok() ==> !r,
+        final(self).preliable() == old(self).preliable(),
+        old(self).pok() ==> rd_post(old(self).prest().len() >= 1 && (old(self).prest()[0] == 0x1F || old(self).prest()[0] == 0x10), false, old(self).preliable(), final(self).pok(), old(self).prest(), 1, final(self).prest(), r == (old(self).prest()[0] == 0x1F)),
+;
+
+fn read_option_string(&mut self) -> (r: Option<String>) 
+    ensures
+        !old(self).pok() ==> !final(self).pok() && r.is_none() && final(self).prest() == old(self).prest(),
+        !final(self).pok() ==> r.is_none(),
+        final(self).preliable() == old(self).preliable(),
+        old(self).pok() && dec_tv(old(self).prest()) != Tv::Tag(0x10u8) ==> rd_post(str_token(old(self).prest()).is_some(), unknown_head(old(self).prest()), old(self).preliable(), final(self).pok(), old(self).prest(), str_token(old(self).prest()).unwrap().1, final(self).prest(), r.is_some() && encode_utf8(r.unwrap()@) == str_token(old(self).prest()).unwrap().0),
+        old(self).pok() && dec_tv(old(self).prest()) == Tv::Tag(0x10u8) ==> rd_post(true, false, old(self).preliable(), final(self).pok(), old(self).prest(), 1, final(self).prest(), r.is_none()),
+;
+
+fn read_string(&mut self) -> (r: String) 
+    ensures
+        !old(self).pok() ==> !final(self).pok() && r@.len() == 0 && final(self).prest() == old(self).prest(),
+        !final(self).pok() ==> r@.len() == 0,
+        final(self).preliable() == old(self).preliable(),
+        old(self).pok() ==> rd_post(str_token(old(self).prest()).is_some(), unknown_head(old(self).prest()), old(self).preliable(), final(self).pok(), old(self).prest(), str_token(old(self).prest()).unwrap().1, final(self).prest(), encode_utf8(r@) == str_token(old(self).prest()).unwrap().0),
+;
+
+fn read_usize(&mut self) -> (r: usize) 
+    ensures
+        !old(self).pok() ==> !final(self).pok() && r == 0 && final(self).prest() == old(self).prest(),
+        !final(self).pok() ==> r == 0,
+        final(self).preliable() == old(self).preliable(),
+        old(self).pok() ==> rd_post(num_token(old(self).prest()).is_some(), unknown_head(old(self).prest()), old(self).preliable(), final(self).pok(), old(self).prest(), num_token(old(self).prest()).unwrap().1, final(self).prest(), r == num_token(old(self).prest()).unwrap().0 as usize),
+;
+
+fn read_uint(&mut self) -> (r: u64) 
+    ensures
+        !old(self).pok() ==> !final(self).pok() && r == 0 && final(self).prest() == old(self).prest(),
+        !final(self).pok() ==> r == 0,
+        final(self).preliable() == old(self).preliable(),
+        old(self).pok() ==> rd_post(num_token(old(self).prest()).is_some(), unknown_head(old(self).prest()), old(self).preliable(), final(self).pok(), old(self).prest(), num_token(old(self).prest()).unwrap().1, final(self).prest(), r == num_token(old(self).prest()).unwrap().0),
+;
+
+fn read_u8(&mut self) -> (r: u8) 
+    ensures
+        !old(self).pok() ==> !final(self).pok() && r == 0 && final(self).prest() == old(self).prest(),
+        !final(self).pok() ==> r == 0,
+        final(self).preliable() == old(self).preliable(),
+        old(self).pok() ==> rd_post(num_token(old(self).prest()).is_some(), unknown_head(old(self).prest()), old(self).preliable(), final(self).pok(), old(self).prest(), num_token(old(self).prest()).unwrap().1, final(self).prest(), r == num_token(old(self).prest()).unwrap().0 as u8),
+{
+        let u = self.read_uint();
+        u as u8
+    }
+
+fn read_u16(&mut self) -> (r: u16) 
+    ensures
+        !old(self).pok() ==> !final(self).pok() && r == 0 && final(self).prest() == old(self).prest(),
+        !final(self).pok() ==> r == 0,
+        final(self).preliable() == old(self).preliable(),
+        old(self).pok() ==> rd_post(num_token(old(self).prest()).is_some(), unknown_head(old(self).prest()), old(self).preliable(), final(self).pok(), old(self).prest(), num_token(old(self).prest()).unwrap().1, final(self).prest(), r == num_token(old(self).prest()).unwrap().0 as u16),
+{
+        let u = self.read_uint();
+        u as u16
+    }
+
+fn read_u32(&mut self) -> (r: u32) 
+    ensures
+        !old(self).pok() ==> !final(self).pok() && r == 0 && final(self).prest() == old(self).prest(),
+        !final(self).pok() ==> r == 0,
+        final(self).preliable() == old(self).preliable(),
+        old(self).pok() ==> rd_post(num_token(old(self).prest()).is_some(), unknown_head(old(self).prest()), old(self).preliable(), final(self).pok(), old(self).prest(), num_token(old(self).prest()).unwrap().1, final(self).prest(), r == num_token(old(self).prest()).unwrap().0 as u32),
+{
+        let u = self.read_uint();
+        u as u32
+    }
+
+fn has_error(&self) -> (r: bool) 
+    ensures
+        r == !self.pok(),
+;
+
+}
+
+impl<R: Read> DefaultProtocolReader<R> {
+fn verify_number_type(&mut self) -> (r: bool) 
+    ensures
+        r == (old(self).ok && is_uint_type(old(self).type_and_value.type_id)),
+        final(self).ok == r,
+        final(self).reader == old(self).reader, r ==> *final(self) == *old(self),
+        !old(self).ok ==> *final(self) == *old(self),
+{
+        if self.ok {
+            match self.type_and_value.type_id {
+                FSM_PROTOCOL_TYPE_INT_4BIT
+                | FSM_PROTOCOL_TYPE_INT_12BIT
+                | FSM_PROTOCOL_TYPE_INT_20BIT
+                | FSM_PROTOCOL_TYPE_INT_28BIT
+                | FSM_PROTOCOL_TYPE_INT_36BIT
+                | FSM_PROTOCOL_TYPE_INT_44BIT
+                | FSM_PROTOCOL_TYPE_INT_52BIT
+                | FSM_PROTOCOL_TYPE_INT_60BIT
+                | FSM_PROTOCOL_TYPE_INT_68BIT => true,
+                _ => {
+                    self.error(verif_format().as_str());
+                    false
+                }
+            }
+        } else {
+            false
+        }
+    }
+
+fn verify_string_type(&mut self) -> (r: bool) 
+    ensures
+        r == (old(self).ok && (old(self).type_and_value.type_id == 0xC0 || old(self).type_and_value.type_id == 0xD0)),
+        final(self).ok == r,
+        final(self).reader == old(self).reader, r ==> *final(self) == *old(self),
+        !old(self).ok ==> *final(self) == *old(self),
+{
+        if self.ok {
+            match self.type_and_value.type_id {
+                FSM_PROTOCOL_TYPE_STRING_LENGTH_4BIT | FSM_PROTOCOL_TYPE_STRING_LENGTH_12BIT => true,
+                _ => {
+                    self.error(verif_format().as_str());
+                    false
+                }
+            }
+        } else {
+            false
+        }
+    }
+
+fn error(&mut self, err: &str) 
+    ensures
+        !final(self).ok,
+        final(self).reader == old(self).reader,
+        !old(self).ok ==> *final(self) == *old(self),
+        old(self).ok ==> final(self).type_and_value.type_id == 0 && final(self).type_and_value.number == 0 && final(self).type_and_value.string@.len() == 0,
+{
+        if self.ok {
+            
+            self.ok = false;
+            self.type_and_value.type_id = 0;
+            self.type_and_value.number = 0;
+            self.type_and_value.string.clear();
+        }
+    }
+
+fn read_additional_number_bytes(&mut self, mut length: u8) 
+    requires
+        length <= 8,
+
+    ensures
+        !old(self).ok ==> *final(self) == *old(self),
+        final(self).reader.eof_only() == old(self).reader.eof_only(),
+        old(self).ok && old(self).reader.rest().len() < length ==> !final(self).ok,
+        old(self).ok && old(self).reader.rest().len() >= length ==> (old(self).reader.eof_only() ==> final(self).ok)
+    && (final(self).ok ==> final(self).type_and_value.number == be_value(old(self).type_and_value.number, old(self).reader.rest().subrange(0, length as int))
+        && final(self).reader.rest() == skip(old(self).reader.rest(), length as int)
+        && final(self).type_and_value.type_id == old(self).type_and_value.type_id),
+        old(self).ok && !final(self).ok ==> final(self).type_and_value.type_id == 0 && final(self).type_and_value.string@.len() == 0,
+{
+ let ghost len0 = length as int;
+
+        while length > 0 && self.ok 
+        invariant
+            length as int <= len0, len0 <= 8, self.reader.eof_only() == old(self).reader.eof_only(),
+            !old(self).ok ==> *self == *old(self),
+            old(self).ok && !self.ok ==> self.type_and_value.type_id == 0 && self.type_and_value.string@.len() == 0,
+            old(self).ok && old(self).reader.rest().len() < len0 ==> (self.ok ==> self.reader.rest().len() < length),
+            self.ok && old(self).reader.rest().len() >= len0 ==> self.reader.rest() == skip(old(self).reader.rest(), len0 - length)
+    && self.type_and_value.type_id == old(self).type_and_value.type_id
+    && be_value(self.type_and_value.number, self.reader.rest().subrange(0, length as int)) == be_value(old(self).type_and_value.number, old(self).reader.rest().subrange(0, len0)),
+            old(self).ok && old(self).reader.rest().len() >= len0 && old(self).reader.eof_only() ==> self.ok,
+        decreases length
+    {
+ let ghost pre_rest = self.reader.rest(); let ghost pre_num = self.type_and_value.number;
+
+            match self.reader.read_u8() {
+                Ok(value) => {
+                    self.type_and_value.number = (self.type_and_value.number << 8) | (value as u64);
+                }
+                Err(err) => {
+                    self.error(verif_format().as_str());
+                }
+            }
+            
+proof {  if self.ok && old(self).reader.rest().len() >= len0 {
+        let p = pre_rest.subrange(0, length as int);
+        assert(p.subrange(1, p.len() as int) == self.reader.rest().subrange(0, length as int - 1));
+        assert(p[0] == pre_rest[0]);
+        assert(skip(old(self).reader.rest(), len0 - length).subrange(1, pre_rest.len() as int) == skip(old(self).reader.rest(), len0 - (length - 1)));
+    } }
+length -= 1;
+        }
+    }
+
+fn read_type_and_size(&mut self) 
+    ensures
+        !old(self).ok ==> *final(self) == *old(self),
+        final(self).reader.eof_only() == old(self).reader.eof_only(),
+        old(self).ok ==> tv_post(old(self).reader.rest(), old(self).reader.eof_only(), final(self).ok, final(self).reader.rest(), final(self).type_and_value.type_id, final(self).type_and_value.number, encode_utf8(final(self).type_and_value.string@)),
+        old(self).ok && !final(self).ok ==> final(self).type_and_value.type_id == 0 && final(self).type_and_value.string@.len() == 0,
+{
+ let ghost r0 = self.reader.rest(); let ghost rel = self.reader.eof_only();
+
+proof {  assert forall|k: int| 0 <= k && 1 + k <= r0.len() implies
+        #[trigger] skip(r0, 1).subrange(0, k) == r0.subrange(1, 1 + k) && skip(skip(r0, 1), k) == skip(r0, 1 + k) by {}
+    if r0.len() > 0 {
+        let h = r0[0];
+        assert((h & 0xF0) == (h / 16) * 16 && (h & 0x0F) == h % 16) by (bit_vector);
+    } }
+
+        if self.ok {
+            self.type_and_value.string.clear();
+            match self.reader.read_u8() {
+                Ok(val) => match val & 0xF0 {
+                    0x10 => {
+                        self.type_and_value.type_id = val;
+                    }
+                    FSM_PROTOCOL_TYPE_INT_4BIT => {
+                        self.type_and_value.type_id = FSM_PROTOCOL_TYPE_INT_4BIT;
+                        self.type_and_value.number = (val & 0x0F) as u64;
+                    }
+                    FSM_PROTOCOL_TYPE_INT_12BIT => {
+                        self.type_and_value.type_id = FSM_PROTOCOL_TYPE_INT_12BIT;
+                        self.type_and_value.number = (val & 0x0F) as u64;
+                        self.read_additional_number_bytes(1);
+                    }
+                    FSM_PROTOCOL_TYPE_INT_20BIT => {
+                        self.type_and_value.type_id = FSM_PROTOCOL_TYPE_INT_20BIT;
+                        self.type_and_value.number = (val & 0x0F) as u64;
+                        self.read_additional_number_bytes(2);
+                    }
+                    FSM_PROTOCOL_TYPE_INT_28BIT => {
+                        self.type_and_value.type_id = FSM_PROTOCOL_TYPE_INT_28BIT;
+                        self.type_and_value.number = (val & 0x0F) as u64;
+                        self.read_additional_number_bytes(3);
+                    }
+                    FSM_PROTOCOL_TYPE_INT_36BIT => {
+                        self.type_and_value.type_id = FSM_PROTOCOL_TYPE_INT_36BIT;
+                        self.type_and_value.number = (val & 0x0F) as u64;
+                        self.read_additional_number_bytes(4);
+                    }
+                    FSM_PROTOCOL_TYPE_INT_44BIT => {
+                        self.type_and_value.type_id = FSM_PROTOCOL_TYPE_INT_44BIT;
+                        self.type_and_value.number = (val & 0x0F) as u64;
+                        self.read_additional_number_bytes(5);
+                    }
+                    FSM_PROTOCOL_TYPE_INT_52BIT => {
+                        self.type_and_value.type_id = FSM_PROTOCOL_TYPE_INT_52BIT;
+                        self.type_and_value.number = (val & 0x0F) as u64;
+                        self.read_additional_number_bytes(6);
+                    }
+                    FSM_PROTOCOL_TYPE_INT_60BIT => {
+                        self.type_and_value.type_id = FSM_PROTOCOL_TYPE_INT_60BIT;
+                        self.type_and_value.number = (val & 0x0F) as u64;
+                        self.read_additional_number_bytes(7);
+                    }
+                    FSM_PROTOCOL_TYPE_INT_68BIT => {
+                        self.type_and_value.type_id = FSM_PROTOCOL_TYPE_INT_68BIT;
+                        self.type_and_value.number = (val & 0x0F) as u64;
+                        self.read_additional_number_bytes(8);
+                    }
+                    FSM_PROTOCOL_TYPE_STRING_LENGTH_4BIT => {
+                        self.type_and_value.type_id = FSM_PROTOCOL_TYPE_STRING_LENGTH_4BIT;
+                        self.type_and_value.number = 0;
+                        let us = (val & 0x0F) as usize;
+proof {  assert((val & 0x0F) <= 15) by (bit_vector); }
+
+                        match self.reader.read_exact(&mut self.buffer[0..us]) {
+                            Ok(_) => {
+proof {  assert(self.buffer@.subrange(0, us as int) == skip(r0, 1).subrange(0, us as int));
+    assert(self.reader.rest() == skip(skip(r0, 1), us as int)); }
+match std::str::from_utf8(&self.buffer[0..us]) {
+                                Ok(val) => {
+                                    self.type_and_value.string.insert_str(0, val);
+                                }
+                                Err(err_utf) => {
+                                    self.error(verif_format().as_str());
+                                }
+                            } },
+                            Err(err) => {
+                                self.error(verif_format().as_str());
+                                self.ok = false;
+                            }
+                        }
+                    }
+                    FSM_PROTOCOL_TYPE_STRING_LENGTH_12BIT => {
+                        self.type_and_value.type_id = FSM_PROTOCOL_TYPE_STRING_LENGTH_12BIT;
+                        self.type_and_value.number = 0;
+                        let mut us = (val & 0x0F) as usize;
+
+                        match self.reader.read_u8() {
+                            Ok(value) => {
+                                
+ let ghost us0 = us;
+us = (us << 8) | (value as usize);
+proof {  assert((val & 0x0F) <= 15) by (bit_vector);
+    assert(us0 <= 15 ==> ((us0 << 8) | (value as usize)) == us0 * 256 + (value as usize)) by (bit_vector); }
+
+                                match self.reader.read_exact(&mut self.buffer[0..us]) {
+                                    Ok(_) => {
+proof {  assert(self.buffer@.subrange(0, us as int) == r0.subrange(2, 2 + us as int));
+    assert(self.reader.rest() == skip(r0, 2 + us as int)); }
+match std::str::from_utf8(&self.buffer[0..us]) {
+                                        Ok(val) => {
+                                            self.type_and_value.string.insert_str(0, val);
+                                        }
+                                        Err(err_utf) => {
+                                            self.error(verif_format().as_str());
+                                        }
+                                    } },
+                                    Err(err) => {
+                                        self.error(verif_format().as_str());
+                                        self.ok = false;
+                                    }
+                                }
+                            }
+                            Err(err) => {
+                                self.error(verif_format().as_str());
+                            }
+                        }
+                    }
+                    _ => {}
+                },
+                Err(e) => {
+                    self.error(verif_format().as_str());
+                }
+            }
+        }
+    }
+
+}
+
+impl<R: Read> ProtocolReader<R> for DefaultProtocolReader<R> {
+    closed spec fn prest(&self) -> Seq<u8> { self.reader.rest() }
+    closed spec fn pok(&self) -> bool { self.ok }
+    closed spec fn preliable(&self) -> bool { self.reader.eof_only() }
+
+fn verify_version(&mut self) {
+        let vs = self.read_string();
+proof {  if encode_utf8(vs@) == encode_utf8(FSM_PROTOCOL_TYPE_PROTOCOL_VERSION@) {
+        lemma_utf8_injective(vs@, FSM_PROTOCOL_TYPE_PROTOCOL_VERSION@);
+    } }
+
+        if !vs.eq(FSM_PROTOCOL_TYPE_PROTOCOL_VERSION) {
+            self.error(verif_format().as_str());
+        }
+    }
+
+fn close(&mut self) {}
+
+fn read_boolean(&mut self) -> bool {
+        if self.ok {
+            match self.reader.read_u8() {
+                Ok(type_id) => match type_id {
+                    FSM_PROTOCOL_TYPE_BOOLEAN_TRUE => true,
+                    FSM_PROTOCOL_TYPE_BOOLEAN_FALSE => false,
+                    _ => {
+                        self.error(verif_format().as_str());
+                        false
+                    }
+                },
+                Err(err) => {
+                    self.error(verif_format().as_str());
+                    false
+                }
+            }
+        } else {
+            false
+        }
+    }
+
+fn read_option_string(&mut self) -> Option<String> {
+        if self.ok {
+            self.read_type_and_size();
+            return match self.type_and_value.type_id {
+                FSM_PROTOCOL_TYPE_OPT_STRING_NONE => None,
+                FSM_PROTOCOL_TYPE_STRING_LENGTH_12BIT | FSM_PROTOCOL_TYPE_STRING_LENGTH_4BIT => {
+                    Some(self.type_and_value.string.clone())
+                }
+                _ => {
+                    self.error(verif_format().as_str());
+                    None
+                }
+            };
+        }
+        None
+    }
+
+fn read_string(&mut self) -> String {
+proof {  reveal_strlit(""); }
+
+        self.read_type_and_size();
+        
+        if self.verify_string_type() {
+            self.type_and_value.string.clone()
+        } else {
+            "".to_string()
+        }
+    }
+
+fn read_usize(&mut self) -> usize {
+        self.read_type_and_size();
+        if self.verify_number_type() {
+            self.type_and_value.number as usize
+        } else {
+            0
+        }
+    }
+
+fn read_uint(&mut self) -> u64 {
+        self.read_type_and_size();
+        if self.verify_number_type() {
+            self.type_and_value.number
+        } else {
+            0
+        }
+    }
+
+fn has_error(&self) -> bool {
+        !self.ok
+    }
+
+}
+
 
 // ===== claims: claims.rs =====
 // Property-level lemmas over the contracts above.  Each proof fn is one obligation.
@@ -420,6 +1075,151 @@ pub proof fn format_covers_every_string(b: Seq<u8>)
     ensures
         str_encodable(b),
 {
+}
+
+// serves: C05 C18
+/// folding the payload bytes of v back in, starting from the bits above them, yields v
+pub proof fn lemma_be_fold(v: u64, k: int, i: int, acc: u64)
+    requires
+        0 <= i <= k <= 8,
+        acc == (if 8 * (k - i) >= 64 { 0u64 } else { v >> ((8 * (k - i)) as u64) }),
+    ensures
+        be_value(acc, be_bytes(v, k).subrange(i, k)) == v,
+    decreases k - i,
+{
+    let p = be_bytes(v, k).subrange(i, k);
+    if i == k {
+        assert(v >> 0u64 == v) by (bit_vector);
+    } else {
+        let s = (8 * (k - 1 - i)) as u64;
+        let b = p[0];
+        assert(b == (v >> s) as u8);
+        let acc2 = (acc << 8) | (b as u64);
+        assert(p.subrange(1, p.len() as int) == be_bytes(v, k).subrange(i + 1, k));
+        if s == 56 {
+            assert(((0u64 << 8) | (((v >> 56u64) as u8) as u64)) == v >> 56u64) by (bit_vector);
+        } else {
+            let s8 = (s + 8) as u64;
+            assert(s <= 48 && s8 == s + 8 ==> (((v >> s8) << 8) | (((v >> s) as u8) as u64)) == v >> s) by (bit_vector);
+        }
+        assert(acc2 == v >> s);
+        lemma_be_fold(v, k, i + 1, acc2);
+    }
+}
+
+// serves: C05 C18
+/// the head byte of enc_uint(v) carries the width class and the bits above the payload
+pub proof fn lemma_uint_head(v: u64)
+    ensures
+        ({
+            let k = uint_class(v);
+            let h = head_byte(uint_type(k), v, k);
+            &&& 0 <= k <= 8
+            &&& 0x30 <= h <= 0xBF
+            &&& (h as int - 0x30) / 0x10 == k
+            &&& (h % 16) as u64 == (if k >= 8 { 0u64 } else { v >> ((8 * k) as u64) })
+        }),
+{
+    let k = uint_class(v);
+    let t = uint_type(k);
+    assert(t == 0x30 + 0x10 * k);
+    if k < 8 {
+        let s = (8 * k) as u64;
+        let x = v >> s;
+        assert(v < 0x10 ==> (v >> 0u64) < 16) by (bit_vector);
+        assert(v < 0x1000 ==> (v >> 8u64) < 16) by (bit_vector);
+        assert(v < 0x10_0000 ==> (v >> 16u64) < 16) by (bit_vector);
+        assert(v < 0x1000_0000 ==> (v >> 24u64) < 16) by (bit_vector);
+        assert(v < 0x10_0000_0000 ==> (v >> 32u64) < 16) by (bit_vector);
+        assert(v < 0x1000_0000_0000 ==> (v >> 40u64) < 16) by (bit_vector);
+        assert(v < 0x10_0000_0000_0000 ==> (v >> 48u64) < 16) by (bit_vector);
+        assert(v < 0x1000_0000_0000_0000 ==> (v >> 56u64) < 16) by (bit_vector);
+        assert(x < 16);
+        assert(t & 0x0F == 0 && x < 16 ==> ((t | ((x as u8) & 0x0F)) % 16) as u64 == x && (t | ((x as u8) & 0x0F)) / 16 == t / 16) by (bit_vector);
+        assert(t == 0x30 || t == 0x40 || t == 0x50 || t == 0x60 || t == 0x70 || t == 0x80 || t == 0x90 || t == 0xA0);
+        assert(t == 0x30 || t == 0x40 || t == 0x50 || t == 0x60 || t == 0x70 || t == 0x80 || t == 0x90 || t == 0xA0 ==> t & 0x0F == 0) by (bit_vector);
+    }
+}
+
+// serves: C05
+/// C05 (integers): reading what write_uint wrote yields the same number, for every u64, whatever follows
+pub proof fn lemma_rt_uint(v: u64, tail: Seq<u8>)
+    ensures
+        dec_tv(enc_uint(v) + tail) == Tv::Num(uint_class(v), v, 1 + uint_class(v)),
+        skip(enc_uint(v) + tail, 1 + uint_class(v)) == tail,
+{
+    let k = uint_class(v);
+    let s = enc_uint(v) + tail;
+    lemma_uint_head(v);
+    lemma_be_fold(v, k, 0, (head_byte(uint_type(k), v, k) % 16) as u64);
+    assert(s.subrange(1, 1 + k) == be_bytes(v, k));
+    assert(be_bytes(v, k).subrange(0, k) == be_bytes(v, k));
+    assert(skip(s, 1 + k) == tail);
+}
+
+
+// serves: C05
+/// C05 (strings): reading what write_str wrote yields the same bytes, for every encodable string
+pub proof fn lemma_rt_str(b: Seq<u8>, tail: Seq<u8>)
+    requires
+        valid_utf8(b),
+        str_encodable(b),
+    ensures
+        str_token(enc_str(b) + tail) == Some((b, enc_str(b).len() as int)),
+        skip(enc_str(b) + tail, enc_str(b).len() as int) == tail,
+{
+    let s = enc_str(b) + tail;
+    let n = b.len() as u64;
+    if b.len() < 16 {
+        assert(n < 16 ==> (0xC0u8 | (((n >> 0u64) as u8) & 0x0F)) % 16 == n && 0xC0 <= (0xC0u8 | (((n >> 0u64) as u8) & 0x0F)) <= 0xCF) by (bit_vector);
+        assert(be_bytes(n, 0) =~= Seq::<u8>::empty());
+        assert(s.subrange(1, 1 + b.len() as int) == b);
+        assert(skip(s, 1 + b.len() as int) == tail);
+    } else {
+        assert(n < 4096 ==> (0xD0u8 | (((n >> 8u64) as u8) & 0x0F)) % 16 == n / 256 && 0xD0 <= (0xD0u8 | (((n >> 8u64) as u8) & 0x0F)) <= 0xDF
+            && ((n >> 0u64) as u8) == n % 256) by (bit_vector);
+        assert(be_bytes(n, 1) =~= seq![(n >> 0u64) as u8]);
+        assert(s[1] == (n >> 0u64) as u8);
+        assert(s.subrange(2, 2 + b.len() as int) == b);
+        assert(skip(s, 2 + b.len() as int) == tail);
+    }
+}
+
+// serves: C05
+pub proof fn lemma_rt_tags(tail: Seq<u8>)
+    ensures
+        dec_tv(enc_bool(true) + tail) == Tv::Tag(0x1Fu8),
+        dec_tv(enc_bool(false) + tail) == Tv::Tag(0x10u8),
+        dec_tv(enc_opt_str(None) + tail) == Tv::Tag(0x10u8),
+        (enc_bool(true) + tail)[0] == 0x1F,
+        (enc_bool(false) + tail)[0] == 0x10,
+        skip(enc_bool(true) + tail, 1) == tail,
+        skip(enc_bool(false) + tail, 1) == tail,
+        skip(enc_opt_str(None) + tail, 1) == tail,
+{
+}
+
+// serves: C18
+/// C18 (token level): an image cut off inside a token is seen as end-of-data, which every read_* turns into the error state
+pub proof fn lemma_cut_token_is_eof(s: Seq<u8>, j: int)
+    requires
+        0 <= j,
+        match dec_tv(s) {
+            Tv::Tag(b) => j < 1,
+            Tv::Num(k, v, n) => j < n,
+            Tv::Str(t, b, n) => j < n,
+            _ => false,
+        },
+    ensures
+        dec_tv(s.subrange(0, j)) == Tv::Eof,
+{
+    let p = s.subrange(0, j);
+    if j > 0 {
+        assert(p[0] == s[0]);
+        if j > 1 {
+            assert(p[1] == s[1]);
+        }
+    }
 }
 
 
